@@ -10,16 +10,16 @@ import (
 
 func fld(id int, name string, t *TRef) *Field { return &Field{ID: id, Name: name, T: t} }
 
-func reqd(f *Field, r int) *Field        { f.Req = r; return f }
-func deflt(f *Field, l *Lit) *Field      { f.Def = l; return f }
-func anno(f *Field, k, v string) *Field  { f.Annos = append(f.Annos, Anno{K: k, V: v}); return f }
-func feat(f *Field, s string) *Field     { f.Feat = s; return f }
-func lInt(v int64) *Lit                  { return &Lit{K: LInt, Int: v} }
-func lDbl(text string, v float64) *Lit   { return &Lit{K: LDouble, Text: text, F: v} }
-func lStr(s string) *Lit                 { return &Lit{K: LString, Text: s} }
-func lIdent(s string) *Lit               { return &Lit{K: LIdent, Text: s} }
-func lConst(c *Const) *Lit               { return &Lit{K: LConst, C: c} }
-func lEnum(e *Enum, v string) *Lit       { return &Lit{K: LEnum, E: e, EV: v} }
+func reqd(f *Field, r int) *Field       { f.Req = r; return f }
+func deflt(f *Field, l *Lit) *Field     { f.Def = l; return f }
+func anno(f *Field, k, v string) *Field { f.Annos = append(f.Annos, Anno{K: k, V: v}); return f }
+func feat(f *Field, s string) *Field    { f.Feat = s; return f }
+func lInt(v int64) *Lit                 { return &Lit{K: LInt, Int: v} }
+func lDbl(text string, v float64) *Lit  { return &Lit{K: LDouble, Text: text, F: v} }
+func lStr(s string) *Lit                { return &Lit{K: LString, Text: s} }
+func lIdent(s string) *Lit              { return &Lit{K: LIdent, Text: s} }
+func lConst(c *Const) *Lit              { return &Lit{K: LConst, C: c} }
+func lEnum(e *Enum, v string) *Lit      { return &Lit{K: LEnum, E: e, EV: v} }
 func fn(name string, ret *TRef, arg *TRef) *Func {
 	return &Func{Name: name, Ret: ret, ArgID: 1, ArgName: "req", Arg: arg}
 }
@@ -384,9 +384,10 @@ func progAliases() *Program {
 }
 
 // thrift/base: order selects which descriptor of Req / Resp the compiling cache sees first.
-//   root-only:    the base-carrying structs are only used as function roots
-//   nested-first: a function that nests Req / Resp is declared before the one that uses them as roots
-//   root-first:   the other way round
+//
+//	root-only:    the base-carrying structs are only used as function roots
+//	nested-first: a function that nests Req / Resp is declared before the one that uses them as roots
+//	root-first:   the other way round
 func progBase(order string) *Program {
 	base := &File{Path: "a/b/base.thrift", NS: "base"}
 	te := base.AddStruct("struct", "TrafficEnv", deflt(fld(1, "Open", T(Bool)), lIdent("false")), deflt(fld(2, "Env", T(String)), lStr("")))
